@@ -21,7 +21,7 @@ Nm == <<"a", "b", "c">>
 HFun(h) == [n \in Range(Nm) |-> h[CHOOSE i \in 1..3 : Nm[i] = n]]
 
 A == SAx("a")  B == SAx("b")  C == SAx("c")
-AtomsSmall == {A, B, SNum(2), SFl(<<A, B>>), SFl(<<A, A>>), SCt(<<A, B>>), SCt(<<A, SNum(1)>>),
+AtomsSmall == {A, B, SNum(2), SFl(<<A, B>>), SFl(<<A, SNum(2), B>>), SFl(<<A, A>>), SCt(<<A, B>>), SCt(<<A, SNum(1)>>),
                SEl(A, "a"), SEl(SFl(<<A, B>>), "a"), SEl(SAx("_anon"), "_anon")}
 AtomsLarge == AtomsSmall \cup {C, SFl(<<B, SNum(2)>>), SCt(<<A, A>>), SFl(<<B, C>>), SFl(<<A, SCt(<<B, C>>)>>), SCt(<<SFl(<<A, B>>), C>>), SEl(B, "b"), SEl(SFl(<<A, SNum(2)>>), "a"), SNum(1)}
 Atoms == IF Pool = "small" THEN AtomsSmall ELSE AtomsLarge
